@@ -18,6 +18,7 @@ RULE = ('(A) random well-typed trees (generator of C05, depth<=4): every identif
         'MatchExpr was evaluated on an instance / rejected-by-reference non-instance.')
 RULE += " Round 6: instances in which one occurrence of a repeated wildcard faces the wildcard's own identifier (expressions may mention it), in both orders."
 RULE += ' Round 7: every read-set probe repeated on a copy whose memory cells and other compound nodes carry is_term, as the cells returned by the evaluator do.'
+RULE += ' Round 8: assignments to a part of a 16-, 32-, 64- or 128-bit register or memory cell built through the ExprAff constructor: the result is well-formed and its read set contains the location.'
 ASSUMPTIONS = ['irsem is the meaning of the IR', 'identifiers used only as segment selectors are not probed (flat memory)']
 
 
